@@ -433,6 +433,16 @@ MUTATIONS += [
     dict(id="C02-used-dirs-ignored", prop="C02", file=PR, old="                NodeType::Dir => {\n                    _ = ids.insert((BlobType::Tree, BlobId::from(*node.subtree.unwrap())), 0);\n                }", new="                NodeType::Dir => {}"),
 ]
 
+# ---- C02 PackInfo::from_pack
+MUTATIONS += [
+    dict(id="C02-from-pack-last-copy-not-noticed", prop="C02", file=PR, old="                        return true; // break the search\n", new=""),
+    dict(id="C02-from-pack-settle-forgotten", prop="C02", file=PR, old="                        // blob is used in this pack\n                        pi.used_size += blob.location.length;\n                        pi.used_blobs += 1;\n                        *count = 0; // count = 0 indicates to other packs that the blob is not needed anymore.\n", new="                        // blob is used in this pack\n                        pi.used_size += blob.location.length;\n                        pi.used_blobs += 1;\n"),
+    dict(id="C02-from-pack-scan-key-untyped-constant", prop="C02", file=PR, old="            let length = blob.location.length;\n            match used_ids.get_mut(&(blob.tpe, blob.id)) {", new="            let length = blob.location.length;\n            match used_ids.get_mut(&(BlobType::Data, blob.id)) {"),
+    dict(id="C02-from-pack-count-zero-is-needed", prop="C02", file=PR, old="                    *count -= 1;\n                    if *count == 0 {", new="                    *count -= 1;\n                    if *count == 1 {"),
+    dict(id="C02-count-used-key-by-pack-type-constant", prop="C02", file=PR, old="            if let Some(count) = self.used_ids.get_mut(&(blob.tpe, blob.id)) {", new="            if let Some(count) = self.used_ids.get_mut(&(BlobType::Data, blob.id)) {"),
+    dict(id="C02-count-used-not-counted", prop="C02", file=PR, old="                *count = count.saturating_add(1);", new="                *count = count.saturating_add(0);"),
+]
+
 HARMLESS = [
     dict(id="H-C05-trees-symlink-continue", prop="C05", file=CK, old="        for node in tree.nodes {\n            match node.node_type {", new="        for node in tree.nodes {\n            if node.node_type == NodeType::Symlink {\n                continue;\n            }\n            match node.node_type {"),
     # independent statements reordered
